@@ -46,6 +46,8 @@ def run(facts, rep, ctx):
             rep.inconc(R1, "anchor %s missing" % name)
             continue
         taint_rule(facts, rep, R1, b, everything=(name == "serialize"))
+    R6 = rep.rule("R02.6", "every integer serialize writes uses the archive's endianness (no fixed-order conversions)", floor=8)
+    endian_rule(facts, rep, R6, ser)
     sort_spec_rule(facts, rep, R2, ser)
     phase_rule(facts, rep, R3, R5, ser)
     intern_rule(facts, rep, R4, ser)
@@ -376,6 +378,53 @@ def phase_rule(facts, rep, R3, R5, ser):
         rep.ok(R3, {"image": "size,data+pool,pointers,labels/2 | seek %s | data,pool,pointers,labels,text" % hex(hdr)})
 
 
+def endian_rule(facts, rep, R6, ser):
+    """Every multi-byte value serialize writes goes through the endian-aware writer with self.endian;
+    raw to_le_bytes/to_be_bytes/write_all of integers would pin one byte order."""
+    n = 0
+    for bb, t in ser.calls():
+        nm = callee_names(t)[1] or callee_names(t)[0] or ""
+        sh = nm.rsplit("::", 1)[-1]
+        where = "%s:%s" % (ser.file, t["line"])
+        if sh in ("write_u32", "write_u16") and "EndianAwareWriter" in nm:
+            e = strip_refs(ser.term_of_operand(t["args"][-1]))
+            if e[0] == "field" and e[2] == "endian" and strip_refs(e[1])[0] == "param":
+                n += 1
+                rep.ok(R6, {"write": sh, "endian": "self.endian", "line": t["line"]})
+            else:
+                rep.violation(R6, ser.name, "endian-arg:%s" % fmt(norm(e))[:30], "serialize writes a %s with byte order %s instead of the archive's" % (sh[6:], fmt(e)[:40]), where)
+        elif sh in ("to_le_bytes", "to_be_bytes", "to_ne_bytes"):
+            rep.violation(R6, ser.name, "raw-bytes:" + sh, "serialize converts an integer with %s: the value's byte order no longer follows the archive's endianness" % sh, where)
+    if n < 8:
+        rep.inconc(R6, "only %d endian-aware writes found in serialize" % n)
+
+
+def text_appenders_rule(facts, rep, R4, ser, helper):
+    """Only the interning helper may append to the text-section buffers passed to it."""
+    nv = ser.named_view()
+    bufs = set()
+    for bb, t in nv.calls():
+        if (callee_names(t)[1] or "") == helper.name:
+            r = root_of(nv.term_of_operand(t["args"][0]))
+            if r and r[0] == "local":
+                bufs.add(r[1])
+            r2 = root_of(nv.term_of_operand(t["args"][1]))
+            if r2 and r2[0] == "local":
+                bufs.add(r2[1])
+    loops = for_loops(nv)
+    for l in sorted(bufs):
+        for bb, sh, args, t in mutations_of(nv, l):
+            nm = callee_names(t)[1] or ""
+            if nm == helper.name:
+                continue
+            # the 4-byte padding of the c-string pool after its loop is the one accepted direct append
+            if sh == "push" and args[1] == ("const", 0, "u8") and not [lp for lp in enclosing_loops(loops, bb) if lp["kind"] == "for"]:
+                continue
+            rep.violation(R4, ser.name, "direct-append:%s:%s" % (nv.local_name(l), sh),
+                          "serialize appends to %s with %s, bypassing the interning helper: a repeated string would be stored twice and earlier offsets overwritten" % (nv.local_name(l), sh),
+                          "%s:%s" % (ser.file, t["line"]))
+
+
 def intern_rule(facts, rep, R4, ser):
     # the interning helper: a local callee taking (&mut Vec<u8>, &mut HashMap<String, usize>, &String)
     cands = set()
@@ -445,3 +494,4 @@ def intern_rule(facts, rep, R4, ser):
         rep.violation(R4, cb.name, "intern", bad, "%s:%s" % (cb.file, cb.line))
     else:
         rep.ok(R4, {"fn": cb.name, "hit_paths": hit, "miss_paths": miss})
+    text_appenders_rule(facts, rep, R4, ser, cb)
